@@ -44,6 +44,7 @@ var detTypes = map[string]string{
 	"f": `"123e4567-e89b-12d3-a456-426614174000" // {type: "uuid", minLength: 2, maxLength: 256, regex: "^1"}`,
 	"i": "{\n  \"name\": \"abc\" // {optional: true, minItems: 1, min: 2, maxItems: 5}\n}",
 	"j": "{ // {allOf: \"@i\"}\n  \"jk\": 1\n}",
+	"q": "{\n  \"k\": \"2021-01-02T07:23:12Z\" // {or: [{type: \"datetime\"}, {type: \"email\"}, {type: \"string\", maxLength: 40}]}\n}",
 	"k": "{ // {allOf: [\"@c\", \"@p\"]}\n  \"kk\": 1\n}",
 	"p": "{\n  \"pp\": 1 // {or: [{type: \"@n6\", nullable: true}, {type: \"string\"}]}\n}",
 }
@@ -111,6 +112,31 @@ func schemaObs(s *jschema.JSchema) string {
 			b, err := openapi.NewSchemaObject(s).MarshalJSON()
 			return string(b) + " " + errObs(err)
 		})
+	}
+	// "on every repetition": the same object asked again, after everything else has been asked of it, answers the same
+	first := sb.String()
+	var again strings.Builder
+	guard2 := func(name string, f func() string) {
+		defer func() {
+			if r := recover(); r != nil {
+				fmt.Fprintf(&again, "%s=PANIC(%v)\n", name, firstLineStr(fmt.Sprint(r)))
+			}
+		}()
+		fmt.Fprintf(&again, "%s=%s\n", name, f())
+	}
+	guard2("ast", func() string { a, err := s.GetAST(); b, _ := json.Marshal(a); return string(b) + " " + errObs(err) })
+	guard2("example", func() string { b, err := s.Example(); return string(b) + " " + errObs(err) })
+	if cerr == nil {
+		guard2("openapi", func() string {
+			b, err := openapi.NewSchemaObject(s).MarshalJSON()
+			return string(b) + " " + errObs(err)
+		})
+	}
+	for _, l := range strings.Split(strings.TrimSpace(again.String()), "\n") {
+		if l != "" && !strings.Contains(first, l+"\n") {
+			name := strings.SplitN(l, "=", 2)[0]
+			fmt.Fprintf(&sb, "SECOND-OBSERVATION-DIFFERS[%s]=%s\n", name, l)
+		}
 	}
 	return sb.String()
 }
@@ -238,6 +264,14 @@ func init() {
 		}
 		first := detObserve(cs)
 		var fs []core.Finding
+		if k := strings.Index(first, "SECOND-OBSERVATION-DIFFERS["); k >= 0 {
+			what := first[k:]
+			if e := strings.Index(what, "\n"); e >= 0 {
+				what = what[:e]
+			}
+			name := strings.TrimSuffix(strings.TrimPrefix(strings.SplitN(what, "=", 2)[0], "SECOND-OBSERVATION-DIFFERS["), "]")
+			fs = append(fs, core.Finding{Class: "nondeterministic:same-object-asked-again:" + name, What: fmt.Sprintf("%+v: the same object, asked again after the other calls, answers differently: %.400s", cs, what)})
+		}
 		for i := 1; i < reps; i++ {
 			if o := detObserve(cs); o != first {
 				fs = append(fs, core.Finding{Class: "nondeterministic:in-process:" + detDiffClass(first, o, cs), What: detDiffWhat(first, o, cs)})
@@ -266,6 +300,9 @@ func init() {
 			for r := 0; r < 300; r++ {
 				for _, cs := range cases {
 					o := detObserve(cs)
+					if strings.Contains(o, "SECOND-OBSERVATION-DIFFERS[") {
+						return []core.Finding{{Class: "nondeterministic:same-object-asked-again", What: o}}, nil
+					}
 					if first == "" {
 						first = o
 					} else if o != first {
@@ -349,7 +386,7 @@ func runC09(c *core.Ctx) error {
 		"regex":  {`/a+b/`, `/[a-z]{3,5}\d?/`, `/(/`, `//`, `/a`, `/(x|y|z)+/`},
 		"jdoc":   {`{"a": [1, 2.5, "x", null, true]}`, `{"a": }`, `[1, 2`, `"s"`, `1.`},
 		"guess":  {`"a.b"`, `"1.5"`, `1.5`, `1`, `1e2`, `true`, `null`, `{`, `[`, `"e"`, `"1e5"`, `x`, `-`, `1.2.3`, `"."`},
-		"schema": {`{"a": 1, "b": "s"} // {additionalProperties: "string"}`, `5 // {or: [{type: "string"}, {type: "boolean"}]}`, `{"a": @x, "b": @y, "c": @z | @w}`, "{\n \"a\": 1, // {min: 5}\n \"b\": \"s\" // {maxLength: 0}\n}", `[1, "a", true] // {minItems: 5}`, `"x" // {enum: ["a.b", "x", 1.5]}`, `{"a": 1 // {bad: 1}`, `@a | @b`, `{"@k": 1}`, `{"k": 1} // {allOf: ["@p", "@q"]}`, `1 // {type: "float", precision: 2, min: 0.5, max: 2, exclusiveMaximum: true}`},
+		"schema": {`{"a": 1, "b": "s"} // {additionalProperties: "string"}`, `"2021-01-02T07:23:12Z" // {or: [{type: "datetime"}, {type: "uuid"}, "email"]}`, `5 // {or: [{type: "string"}, {type: "boolean"}]}`, `{"a": @x, "b": @y, "c": @z | @w}`, "{\n \"a\": 1, // {min: 5}\n \"b\": \"s\" // {maxLength: 0}\n}", `[1, "a", true] // {minItems: 5}`, `"x" // {enum: ["a.b", "x", 1.5]}`, `{"a": 1 // {bad: 1}`, `@a | @b`, `{"@k": 1}`, `{"k": 1} // {allOf: ["@p", "@q"]}`, `1 // {type: "float", precision: 2, min: 0.5, max: 2, exclusiveMaximum: true}`},
 	}
 	items := corpus.Harvest(300, "notations/jschema", "rules/enum", "formats/json", "notations/regex")
 	rng.Shuffle(len(items), func(i, j int) { items[i], items[j] = items[j], items[i] })
